@@ -384,6 +384,10 @@ def directed(recvs, by_name, k):
                  "cinfo": {"rename_all": None, "default": None, "post": post, "auk": False, "from_word": None, "from_none": None}}
             recvs.append(x)
             by_name[name] = x
+    # a custom converter on a field whose TYPE has a value-for-absent: absent, the field holds that value (no default declared)
+    add_struct([F("opt_len", O(L("i64")), **{"with": "w_opt_len"}), F("label", L("String")), F("other", O(L("u8")))])
+    add_enum([{"ident": "Plain", "style": "unit"},
+              {"ident": "Sized", "style": "struct", "fields": [F("opt_len", O(L("i64")), **{"with": "w_opt_len"}), F("n", O(L("u8")))]}])
     # a flatten member that is a derived NEWTYPE around a struct (resp. an enum): the newtype forwards the list it is handed
     def add_plain_newtype(inner):
         nonlocal k
@@ -605,6 +609,7 @@ def render_rust(recvs, seed):
            "// ---- the fixed library of user callables (mirrored in Run/UserLib.v)",
            "pub fn w_len(m: &syn::Meta) -> darling::Result<i64> { String::from_meta(m).map(|s| s.len() as i64) }",
            "pub fn w_fail(_m: &syn::Meta) -> darling::Result<i64> { Err(darling::Error::custom(\"w_fail\")) }",
+           "pub fn w_opt_len(m: &syn::Meta) -> darling::Result<Option<i64>> { String::from_meta(m).map(|s| Some(s.len() as i64)) }",
            "pub fn m_bang(s: String) -> String { s + \"!\" }", "pub fn m_not(b: bool) -> bool { !b }",
            "pub fn a_nonempty(s: String) -> darling::Result<String> { if s.is_empty() { Err(darling::Error::custom(\"empty\")) } else { Ok(s) } }",
            "pub fn d_seven() -> i64 { 7 }", "pub fn d_hello() -> String { \"hello\".to_string() }",
